@@ -78,6 +78,37 @@ fn maybe_resize(s: &mut S, r: &mut Rng, slot: usize, maxc: usize, maxr: usize, n
     }
 }
 
+/// Put the cursor on a structurally interesting position (margins and their neighbours, first / last
+/// row, first / last column, the wrap-pending position), computed from the terminal's current margins.
+fn place_cursor(s: &mut S, r: &mut Rng, slot: usize) {
+    let h = s.vt(slot).verif_state().terminal;
+    let (cols, rows) = (h.cols as i64, h.rows as i64);
+    let (top, bot) = (h.top_margin as i64, h.bottom_margin as i64);
+    let cand_rows = [0, top - 1, top, top + 1, bot - 1, bot, bot + 1, rows - 1];
+    let row = loop {
+        let x = *r.pick(&cand_rows);
+        if x >= 0 && x < rows {
+            break x;
+        }
+    };
+    let cand_cols = [0, 1, cols - 2, cols - 1, cols - 1];
+    let col = loop {
+        let x = *r.pick(&cand_cols);
+        if x >= 0 && x < cols {
+            break x;
+        }
+    };
+    if h.origin_mode && (row < top || row > bot) && r.chance(1, 2) {
+        s.feed_str(slot, "\x1b[?6l", true);
+    }
+    let h = s.vt(slot).verif_state().terminal;
+    let rel = if h.origin_mode { (row - top).max(0) } else { row };
+    s.feed_str(slot, &format!("\x1b[{};{}H", rel + 1, col + 1), true);
+    if col == cols - 1 && r.chance(1, 2) {
+        s.feed_str(slot, "p", true); // wrap-pending (with auto-wrap on)
+    }
+}
+
 /// Generic one-token episode.
 fn tokens(s: &mut S, r: &mut Rng, slot: usize, wt: &Weights, n: usize, maxc: usize, maxr: usize, resize: (u64, u64)) {
     for _ in 0..n {
@@ -86,6 +117,12 @@ fn tokens(s: &mut S, r: &mut Rng, slot: usize, wt: &Weights, n: usize, maxc: usi
         }
         if maybe_resize(s, r, slot, maxc, maxr, resize.0, resize.1) {
             continue;
+        }
+        if r.chance(1, 5) {
+            place_cursor(s, r, slot);
+            if !s.alive(slot) {
+                return;
+            }
         }
         let (c, rr) = s.vt(slot).size();
         let t = gen::token(r, wt, c, rr);
@@ -135,6 +172,56 @@ fn ep_general(s: &mut S, r: &mut Rng, maxc: usize, maxr: usize, wt: &Weights, na
     }
     let n = r.range(4, 28);
     tokens(s, r, slot, wt, n, maxc, maxr, resize);
+}
+
+// ---------------------------------------------------------------------------------- C04
+
+/// "wrap-pending cursor across a width change": fill a row exactly, change the width (directly, or while
+/// the other screen is showing so that the re-wrap is deferred to the switch back), then print.
+fn ep_c04_wrap_resize(s: &mut S, r: &mut Rng, maxc: usize, maxr: usize) {
+    s.episode("C04");
+    let (c, rr) = gen::size(r, maxc, maxr);
+    let slot = s.new_vt(c, rr, gen::limit(r));
+    if r.chance(1, 2) {
+        fill(s, r, slot);
+    }
+    let fillrow = |s: &mut S, r: &mut Rng, slot: usize| {
+        let (c, rr) = s.vt(slot).size();
+        let line: String = std::iter::repeat(*r.pick(&['k', 'l', ' '])).take(c).collect();
+        s.feed_str(slot, &format!("\x1b[{};1H{}", r.range(1, rr), line), true);
+    };
+    let deferred = r.chance(1, 2);
+    if deferred {
+        if r.chance(1, 2) {
+            fillrow(s, r, slot);
+        }
+        let t = gen::enter_alt(r);
+        s.feed_str(slot, &t, true);
+    }
+    if !deferred || r.chance(1, 2) {
+        fillrow(s, r, slot);
+    }
+    let (c0, r0) = s.vt(slot).size();
+    let (nc, nr) = if r.chance(2, 3) { (next_size(r, c0, r0, maxc, maxr).0, r0) } else { next_size(r, c0, r0, maxc, maxr) };
+    s.resize(slot, nc, nr, true);
+    if deferred {
+        if r.chance(2, 3) {
+            fillrow(s, r, slot);
+        }
+        let t = gen::leave_alt(r);
+        s.feed_str(slot, &t, true);
+    }
+    for _ in 0..r.range(1, 4) {
+        if !s.alive(slot) {
+            return;
+        }
+        let t = match r.n(4) {
+            0 => "\x08".to_string(),
+            1 => "\x1b[D".to_string(),
+            _ => gen::print(r),
+        };
+        s.feed_str(slot, &t, true);
+    }
 }
 
 // ---------------------------------------------------------------------------------- C01
@@ -742,7 +829,16 @@ fn ep_c13(s: &mut S, r: &mut Rng, maxc: usize, maxr: usize) {
             0 => false,
             _ => true,
         };
-        s.feed_str(slot, &t, consume);
+        if r.chance(1, 5) {
+            // feed() never trims: the bound is owed again by the next feed_str / resize call,
+            // including a resize to the size the terminal already has
+            s.feed_chars(slot, &t);
+            if r.chance(1, 2) {
+                s.resize(slot, c, rr, consume);
+            }
+        } else {
+            s.feed_str(slot, &t, consume);
+        }
     }
 }
 
@@ -1104,6 +1200,7 @@ pub fn run(args: &Args) -> i32 {
             "C01" => ep_c01(&mut s, &mut r, maxc, maxr),
             "C02" => ep_c02(&mut s, &mut r, maxc, maxr),
             "C03" => ep_c03(&mut s, &mut r, maxc, maxr),
+            "C04" if r.chance(1, 5) => ep_c04_wrap_resize(&mut s, &mut r, maxc, maxr),
             "C04" => ep_general(
                 &mut s,
                 &mut r,
